@@ -1,12 +1,15 @@
 (* Extraction of the C20 model (polynomial arithmetic + serial math utils over an FOps record) for the
-   correspondence driver.  The model is instantiated by the driver at zp_ops P64 / P62 / P128.
+   correspondence driver.  The model is instantiated by the driver at zp_ops P64 / P62 / P128 and at the
+   quadratic / cubic extension records of Model/PolynomExt.v (carriers Z*Z and Z*Z*Z).
    Directives: ExtrOcamlBasic only (Z / N / nat stay inductive). *)
 From Coq Require Extraction ExtrOcamlBasic.
 From VBase Require Import FieldOps ZpOps.
-From VModel Require Import Polynom.
+From VGen Require Import F64 F62 F128.
+From VModel Require Import Polynom ExtField PolynomExt.
 Extraction Language OCaml.
 Separate Extraction
   zp_ops P64 P62 P128
+  quad64_ops quad62_ops quad128_ops cube64_ops cube62_ops
   eval eval_many degree_of remove_leading_zeros add sub mul mul_by_scalar div div_full
   syn_div syn_div_in_place syn_div_in_place_full syn_div_roots_in_place poly_from_roots
   get_power_series get_power_series_with_offset add_in_place mul_acc batch_inversion
